@@ -40,12 +40,12 @@ def _gen_params(rng, kind, small=False, big=False):
         return {"r0": round(rng.logu(0.05, 0.5), 4), "N": rng.choice([128, 100, 65]) if big else rng.choice([8, 16, 32, 9, 12] if small else [8, 16, 32, 64, 9, 12]),
                 "delta": round(rng.logu(0.01, 0.5), 4), "L0": round(rng.logu(5, 100), 3), "l0": round(rng.logu(0.001, 0.05), 5)}
     if kind == "VK":
-        nx = rng.randint(25, 40) if big else rng.randint(4, 14 if small else 24)
+        nx = rng.randint(25, 40) if big else (rng.choice([1, 2, 3]) if rng.chance(0.06) else rng.randint(4, 14 if small else 24))
         px = round(rng.logu(0.05, 0.5), 4)
         return {"nx": nx, "px": px, "r0": round(rng.logu(0.05, 1.0), 4), "L0": round(px * rng.logu(3, 60), 4),
                 "ncol": rng.randint(1, min(4, nx))}
     if kind == "KOL":
-        nx = rng.choice([18, 25, 31, 33]) if big else rng.choice([4, 5, 6, 7, 8, 9, 10, 12, 13] if small else [4, 5, 6, 7, 8, 9, 10, 12, 13, 16, 17])
+        nx = rng.choice([18, 25, 31, 33]) if big else rng.choice([1, 2, 3, 4, 5, 6, 7, 8, 9, 10, 12, 13] if small else [2, 3, 4, 5, 6, 7, 8, 9, 10, 12, 13, 16, 17])
         px = round(rng.logu(0.05, 0.5), 4)
         return {"nx": nx, "px": px, "r0": round(rng.logu(0.05, 1.0), 4), "L0": round(px * rng.logu(3, 60), 4),
                 "slf": rng.randint(1, 4)}
